@@ -94,11 +94,11 @@ pub type Timestamp = DateTime<Utc>;
 //@end
 
 impl TaskData {
-//@extract src/task/data.rs :: impl TaskData :: fn has | R22
-    pub fn has(&self, property: &str) -> (r: bool)
-        ensures r == self.taskmap@.dom().contains(property@),
+//@extract src/task/data.rs :: impl TaskData :: fn has | R15
+    pub fn has<P1: AsRef<str>>(&self, property: P1) -> (r: bool)
+        ensures r == self.taskmap@.dom().contains(as_ref_chars(&property)),
 {
-        self.taskmap.contains_key(property)
+        self.taskmap.contains_key(property.as_ref())
     }
 //@end
 }
